@@ -594,3 +594,6 @@ MANIFEST = {
     "technique": "Lean 4 proofs (induction over 3-byte / 4-character groups, omega on the bit arithmetic, decide over regenerated tables) "
                  "+ ASan/canary differential run of two implementations + exhaustive small scopes",
 }
+
+
+KNOWN_MUST_MATCH_MODEL = True   # inside a known finding's region the observation must still equal the model's (which reproduces the listed defect); see lib/vf/run.py
